@@ -13,10 +13,10 @@ META = dict(
     property="C25",
     level="exploration",
     technique="grammar-generated Range headers + complete small scope, served by static.File over Site/HTTPChannel with an owned cooperator, compared with an RFC 9110 §14 reference; multipart bodies split by an independent MIME parser",
-    level_text="Every case is one GET/HEAD for a generated file (size 0..64 KiB+1) with a generated Range value; status, Content-Range, Content-Length, body (and every multipart part) are compared with a reference written from RFC 9110 §14.1-14.4/§15.3.7/§15.5.17, any 5xx or logged error is a violation, and a plain follow-up request on the same connection must still be answered. Small scope (sizes 0..4, all single specs and all pairs of valid specs over positions 0..4) is enumerated completely; everything else is sampled.",
+    level_text="Every case is one GET/HEAD for a generated file (size 0..64 KiB+1) with a generated Range value; status, Content-Range, Content-Length, body (and every multipart part) are compared with a reference written from RFC 9110 §14.1-14.4/§15.3.7/§15.5.17, any 5xx or logged error is a violation, and a plain follow-up request on the same connection must still be answered. A case may be a short history: the same Site (in mode putchild the same static.File object, as installed with putChild) serves further requests after the file was replaced by content of another size; every response is judged against the content the file has when the request arrives. Small scope (sizes 0..4, all single specs and all pairs of valid specs over positions 0..4) is enumerated completely; everything else is sampled.",
     level_note="Reference parser/oracle trusted. Non-strict spellings (unit case, white space other than SP/HT, '+1', '1_0', negative numbers) are accepted either as malformed (200) or by their Python-int reading; an empty range set and a satisfiable suffix on an empty file accept 200 or 416. HEAD accepts 200-with-full-length or the GET-equivalent status. StaticProducer.bufferSize is lowered (256..4096) in some cases so that the multi-read paths run with small files; File.openForReading returns a wrapper that refuses read(-1) like read(-2) and enforces a read-call budget, so that an endless producer loop becomes a logged failure instead of hanging the check. If-Range/conditional requests, several Range header lines and HTTP/1.0 are not generated.",
     design_ref="§5 C25",
-    rule="case = (size, fill, method, Range bytes or None, bufsize). Range values come from a grammar over positions relative to the file size (0,1,2,size-2..size+1,2*size,huge), spec kinds (a-b, a-, -n, reversed, junk), numeral decorations, unit/separator variants and raw garbage. non-trivial = header has >= 2 specs, or a suffix >= size, or size 0 (with a Range header); distinct by (size, method, Range bytes, bufsize).",
+    rule="case = (size, fill, method, Range bytes or None, bufsize [, mode dir|putchild, then=[further requests, each after replacing the file by other content of another size]]). Range values come from a grammar over positions relative to the file size (0,1,2,size-2..size+1,2*size,huge), spec kinds (a-b, a-, -n, reversed, junk), numeral decorations, unit/separator variants and raw garbage. non-trivial = header has >= 2 specs, or a suffix >= size, or size 0 (with a Range header); distinct by (size, method, Range bytes, bufsize).",
 )
 
 FIXED_DATE = b"Thu, 01 Jan 1970 00:00:00 GMT"
@@ -349,41 +349,64 @@ def _file_for(case, content):
     return ent[0]
 
 
-def serve(case, content):
-    """-> (raw bytes of first response, raw bytes written after the follow-up request, error events, quiesced)"""
+def steps_of(case):
+    """A case is one request (flat keys) optionally followed by more requests ("then") that the SAME Site --
+    in mode "putchild" the same static.File object -- serves after the file was replaced by other content."""
+    first = dict(size=case["size"], fill=case["fill"], method=case["method"], range=case["range"])
+    return [first] + [dict(st) for st in case.get("then", [])]
+
+
+def serve(case):
+    """-> ([(step, content, response bytes, error events so far, quiesced)], bytes written for the final plain GET)"""
     from twisted.internet import task
     from twisted.internet.error import ConnectionDone
     from twisted.internet.testing import StringTransport
     from twisted.python.failure import Failure
-    from twisted.web import server, static
-    size = len(content)
-    with _workdir(), _owned(case["bufsize"]) as queue, harness.captured_log() as events:
-        d = _file_for(case, content)
-        root = _guarded_file_class()(d)
-        # every spec may read the whole file once, in pieces of bufsize (plus short reads around separators)
-        root.readBudget = ((case["range"] or b"").count(b",") + 2) * (2 * (size // case["bufsize"]) + 6) + 20
+    from twisted.web import resource, server
+    bufsize = case["bufsize"]
+    results = []
+    with _workdir(), _owned(bufsize) as queue, harness.captured_log() as events:
+        d = _ROOT[os.getpid()][0]
+        if case.get("mode", "dir") == "putchild":        # one long-lived File object for the file itself
+            fileres = _guarded_file_class()(os.path.join(d, "f.bin"))
+            root = resource.Resource()
+            root.putChild(b"f.bin", fileres)
+        else:                                            # directory resource: a fresh child File per request
+            fileres = root = _guarded_file_class()(d)
         site = server.Site(root, timeout=None, reactor=task.Clock())
         ch = site.buildProtocol(None)
         tr = StringTransport()
         ch.makeConnection(tr)
-        rng = case["range"]
-        h = b"" if rng is None else b"Range: " + rng + b"\r\n"
-        ch.dataReceived(case["method"].encode() + b" /f.bin HTTP/1.1\r\nHost: x\r\n" + h + b"\r\n")
-        limit = 200 + 8 * (size // max(1, case["bufsize"]) + 1)
-        quiet = _pump(queue, limit)
-        first = tr.value()
-        tr.clear()
-        errors = list(harness.log_errors(events))
         second = None
-        if quiet and not errors and not tr.disconnecting:
+        ok = True
+        for step in steps_of(case):
+            content = make_content(step["size"], step["fill"])
+            _file_for(step, content)
+            size = len(content)
+            rng = step["range"]
+            # every spec may read the whole file once, in pieces of bufsize (plus short reads around separators)
+            fileres.readBudget = ((rng or b"").count(b",") + 2) * (2 * (size // bufsize) + 6) + 20
+            h = b"" if rng is None else b"Range: " + rng + b"\r\n"
+            tr.clear()
+            ch.dataReceived(step["method"].encode() + b" /f.bin HTTP/1.1\r\nHost: x\r\n" + h + b"\r\n")
+            quiet = _pump(queue, 200 + 8 * (size // max(1, bufsize) + 1))
+            errors = list(harness.log_errors(events))
+            results.append((step, content, tr.value(), errors, quiet))
+            ok = quiet and not errors and not tr.disconnecting
+            if not ok:
+                break
+        if ok:
+            tr.clear()
+            fileres.readBudget = 1000
             ch.dataReceived(b"GET /f.bin HTTP/1.1\r\nHost: x\r\n\r\n")
             with _buf(65536):
                 quiet = _pump(queue, 200)
             second = tr.value()
-            errors = list(harness.log_errors(events))
+            if list(harness.log_errors(events)) or not quiet:
+                second = second or b""
         ch.connectionLost(Failure(ConnectionDone()))
         _pump(queue, 50)
-    return first, second, errors, quiet
+    return results, second
 
 
 @contextlib.contextmanager
@@ -486,14 +509,33 @@ def crash_signature(cls, rng, size, errors, bufsize):
 
 
 def run_case(ctx, case):
-    size, method, rng = case["size"], case["method"], case["range"]
-    content = make_content(size, case["fill"])
+    results, second = serve(case)
+    prev = None
+    for idx, (step, content, first, errors, quiet) in enumerate(results):
+        last = idx == len(results) - 1
+        judge(ctx, case, idx, prev, step, content, first, errors, quiet, second if last else b"skip")
+        prev = step
+    if len(results) < len(steps_of(case)):
+        raise AssertionError("C25 harness: a step was skipped although the one before it passed")
+    mode = case.get("mode", "dir")
+    ctx.count("mode=" + mode)
+    for a, b in zip(steps_of(case), steps_of(case)[1:]):
+        kind = "grew" if b["size"] > a["size"] else "shrank" if b["size"] < a["size"] else "same size"
+        ctx.count(f"history ({'same File object' if mode == 'putchild' else 'fresh child File'}): file {kind} between requests")
+
+
+def judge(ctx, case, idx, prev, step, content, first, errors, quiet, second):
+    """the oracle for one request/response; `second` is the output of the plain GET sent after the last step"""
+    size, method, rng = step["size"], step["method"], step["range"]
     cls, alts, nspecs, strict = classify(rng, size)
-    first, second, errors, quiet = serve(case, content)
+    # a divergence that shows only after the file was replaced is a different root-cause class
+    after = "" if idx == 0 or (prev["size"], prev["fill"]) == (size, step["fill"]) else "after-file-change:"
 
     def bad(obs, detail):
-        ctx.violation(obs if obs.startswith("crash:") or "/crash:" in obs else f"{cls}/{obs}", case,
-                      f"size={size} {method} Range={rng!r} bufsize={case['bufsize']}: {detail}; acceptable={alts!r}; "
+        sig = obs if obs.startswith("crash:") or "/crash:" in obs else f"{cls}/{obs}"
+        hist = "" if idx == 0 else f" [request {idx + 1} of a {case.get('mode', 'dir')}-mode history; before: {prev!r}]"
+        ctx.violation(after + sig, case,
+                      f"size={size} {method} Range={rng!r} bufsize={case['bufsize']}{hist}: {detail}; acceptable={alts!r}; "
                       f"response head={first[:300]!r}")
 
     try:
@@ -579,14 +621,15 @@ def run_case(ctx, case):
                         bad("body", f"part {x}-{y} carries {len(pbody)} bytes, want {y + 1 - x}; "
                                     f"{pbody[:8]!r} vs {content[x:x + 8]!r}")
     # the connection must still be usable: plain GET answered with the whole file
-    if second is None:
-        bad("connection-closed", "transport was asked to close")
-    try:
-        code2, headers2, body2 = parse_head(second)
-    except Malformed as e:
-        bad("followup", f"follow-up request not answered: {e} ({second[:80]!r})")
-    if code2 != 200 or body2 != content:
-        bad("followup", f"follow-up GET gave {code2} with {len(body2)} bytes")
+    if second != b"skip":
+        if second is None:
+            bad("connection-closed", "transport was asked to close")
+        try:
+            code2, headers2, body2 = parse_head(second)
+        except Malformed as e:
+            bad("followup", f"follow-up request not answered: {e} ({second[:80]!r})")
+        if code2 != 200 or body2 != content:
+            bad("followup", f"follow-up GET gave {code2} with {len(body2)} bytes")
 
     # bookkeeping
     ctx.count("class=" + cls)
@@ -600,7 +643,8 @@ def run_case(ctx, case):
     sp = strict_parse(v) or lenient_parse(v) or []
     suffix_ge = any(f is None and n is not None and n >= size for f, n in sp)
     if rng is not None and (nspecs >= 2 or suffix_ge or size == 0):
-        ctx.nontrivial((size, method, rng, case["bufsize"]))
+        ctx.nontrivial((size, method, rng, case["bufsize"], idx, case.get("mode", "dir"),
+                        None if prev is None else (prev["size"], prev["range"])))
         ctx.count("nontrivial")
         if nspecs >= 2:
             ctx.count("nt: >=2 specs")
@@ -608,7 +652,7 @@ def run_case(ctx, case):
             ctx.count("nt: suffix >= size")
         if size == 0:
             ctx.count("nt: empty file")
-        if len(ctx.samples) < 5 and (size + len(rng)) % 7 == 3:
+        if len(ctx.samples) < 5 and (size + len(rng)) % 7 == 3 and (idx > 0 or len(ctx.samples) < 3):
             ctx.sample(case)
 
 
@@ -711,8 +755,40 @@ def _range_value(draw, size):
     return unit + sep + lead + comma.join(specs) + trail
 
 
+def _enum_history(ctx, _arg=None):
+    """one static.File object (putChild), file replaced between two requests: every ordered pair of different
+    sizes 0..3 x {plain GET, HEAD, every single spec over 0..4} as the second request"""
+    atoms = [None] + [b"bytes=" + a for a in _atoms(5)]
+
+    def cases():
+        for a, b in itertools.permutations(range(4), 2):
+            for first in (None, b"bytes=0-"):
+                for rng in atoms:
+                    for m in (("GET", "HEAD") if rng is None else ("GET",)):
+                        yield dict(size=a, fill=a, method="GET", range=first, bufsize=65536, mode="putchild",
+                                   then=[dict(size=b, fill=b + 7, method=m, range=rng)])
+    with _workdir():
+        enumerate_run(ctx, cases(), run_case, stop_after_violation=False)
+
+
 @st.composite
 def _cases(draw):
+    case = draw(_one_request())
+    case["mode"] = draw(st.sampled_from(["dir", "dir", "putchild"]))
+    if draw(st.integers(0, 2)) == 0:
+        then, size = [], case["size"]
+        for _ in range(draw(st.integers(1, 2))):
+            new = draw(st.one_of(st.integers(0, 300), st.sampled_from([0, 1, size, size + 1, max(0, size - 1), 2 * size, size // 2]),
+                                 st.integers(0, 65536)))
+            then.append(dict(size=new, fill=draw(st.integers(0, 254)), method=draw(st.sampled_from(["GET", "GET", "GET", "HEAD"])),
+                             range=draw(_range_value(draw(st.sampled_from([new, new, size]))))))    # aimed at the new or the old size
+            size = new
+        case["then"] = then
+    return case
+
+
+@st.composite
+def _one_request(draw):
     size = draw(st.one_of(st.sampled_from([0, 1, 2, 3, 10]), st.integers(0, 300), st.integers(0, 65536),
                           st.sampled_from([65535, 65536, 65537])))
     bufsize = draw(st.sampled_from([65536, 65536, 65536, 256, 300, 1000, 4096]))
@@ -730,7 +806,8 @@ def run(ctx):
     sizes = [0, 1, 2, 3, 4]
     for s in sizes:
         _enum_size(ctx, s)
-    ctx.extra["exhaustive_scope"] = "sizes 0..4 x {every single spec a-, -a, a-b (GET,HEAD), every ordered pair of valid specs (GET)} with a,b in 0..4"
+    _enum_history(ctx)
+    ctx.extra["exhaustive_scope"] = "sizes 0..4 x {every single spec a-, -a, a-b (GET,HEAD), every ordered pair of valid specs (GET)} with a,b in 0..4; one File object (putChild) serving two requests with the file replaced in between: every ordered pair of different sizes 0..3 x second request in {plain GET, HEAD, every single spec}"
     ctx.exhaustive = False
     if ctx.has_violation():
         return
@@ -739,5 +816,5 @@ def run(ctx):
         ctx.shards(_hyp_shard, list(range(16)))
     else:
         with _workdir():
-            hyp_run(ctx, _cases(), run_case, 2500, label="grammar")
+            hyp_run(ctx, _cases(), run_case, 2000, label="grammar")
 
